@@ -1,6 +1,7 @@
 import CollectionsC.Base.Status
 import CollectionsC.Base.Mem
 import CollectionsC.Base.Buf
+import CollectionsC.Spec.Fifo
 /-! Concrete model of `src/cc_ring_buffer.c`: the same fields the C struct keeps, the same
 statements in the same order. `% capacity` with capacity 0 is a checked fault (SIGFPE in C). -/
 namespace CC
@@ -54,6 +55,18 @@ def Inv (r : Rbuf) : Prop :=
   0 < r.cap ∧ r.buf.length = r.cap ∧ r.size ≤ r.cap ∧ r.tail < r.cap ∧ r.head = (r.tail + r.size) % r.cap
 
 instance (r : Rbuf) : Decidable r.Inv := by unfold Inv; infer_instance
+
+open Spec.Fifo (Op Out) in
+def step (r : Rbuf) (op : Op) (m : Mem) : Out × Rbuf × Mem :=
+  match op with
+  | .enqueue x => let e := r.enqueue x m; (⟨none, none⟩, e.1, e.2)
+  | .dequeue   => let d := r.dequeue m; (⟨some d.1, d.2.1⟩, d.2.2.1, d.2.2.2)
+
+open Spec.Fifo (Op Out) in
+def run (r : Rbuf) (ops : List Op) (m : Mem) : List Out × Rbuf × Mem :=
+  match ops with
+  | []        => ([], r, m)
+  | op :: ops => let s := r.step op m; let rs := run s.2.1 ops s.2.2; (s.1 :: rs.1, rs.2.1, rs.2.2)
 
 end Rbuf
 end CC
